@@ -30,7 +30,7 @@ worker() {
     p=${n%%_*}
     ( cd $d/repo && git checkout -q -- . && git apply /verif/seeded/$n/patch.diff ) || { echo -e "$n\t$p\tNOAPPLY" >> $base/out.$w; continue; }
     caught=""; ownexit=""; ownsig=""
-    list="$p"; for q in $CROSS; do [ "$q" != "$p" ] && list="$list $q"; done
+    list="$p"; if [ -z "$OWN_ONLY" ]; then for q in $CROSS; do [ "$q" != "$p" ] && list="$list $q"; done; fi
     for q in $list; do
       r=$(cd $d/verif && ./check.sh $q quick 2>&1); code=$?
       if [ "$q" = "$p" ]; then ownexit=$code; ownsig=$(echo "$r" | grep -m1 "failure" | sed 's/^ *failure //' | cut -c1-110); fi
@@ -46,6 +46,9 @@ worker() {
 for w in $(seq 0 $((W-1))); do worker $w & done
 wait
 cat $base/out.* | sort > $base/new.tsv
+# OWN_ONLY=1: only the check of the seed's own property; result goes to
+# RESULTS_own.tsv (a final pass with the final harness), RESULTS.tsv is kept
+if [ -n "$OWN_ONLY" ]; then cp $base/new.tsv /verif/seeded/RESULTS_own.tsv; rm -rf $base; exit 0; fi
 if [ -n "$SEED_PAT" ] && [ -f /verif/seeded/RESULTS.tsv ]; then
   # (signatures may contain NUL and other bytes: merge binary-safely)
   python3 - "$base/new.tsv" /verif/seeded/RESULTS.tsv <<'PY'
